@@ -1888,7 +1888,7 @@ class PGPKey(Armorable, ParentRef, PGPObject):
         """
         Add a key as a subkey to this key.
 
-        :param key: A private :py:obj:`~pgpy.PGPKey` that does not have any subkeys of its own
+        :param key: A private :py:obj:`~pgpy.PGPKey` that does not have any subkeys, user ids or user attributes of its own
         :keyword usage: A ``set`` of key usage flags, as :py:obj:`~constants.KeyFlags` for the subkey to be added.
         :type usage: ``set``
 
@@ -1899,6 +1899,11 @@ class PGPKey(Armorable, ParentRef, PGPObject):
 
         if key.is_public:
             raise PGPError("Cannot add a public key as a subkey to this key")
+
+        if len(key._uids) > 0:
+            # a subkey has no user ids or attributes of its own: exported after the subkey packet,
+            # they would be read back as belonging to this (the primary) key
+            raise PGPError("Cannot add a key that has user ids or attributes as a subkey!")
 
         okey, oparent = key._key, key._parent
         if key.is_primary:
